@@ -288,6 +288,21 @@ def e2e_cases(pid, tier, rng):
                 case = Case(files, copt + wopt + ["--blocksz", str(B), argv], exp_out,
                             note={"blocksz": B, "container": cont, "file": fi, "colour": colour, "window": wopt}, timeout=60)
                 cases.append((case, lay, B, cont))
+    # a compressed log of several hundred kilobytes that does not compress well (decoders hand their output over in pieces
+    # of their own choosing: 32 KiB windows, input refills), read at block sizes below, at and above the reader's chunk size
+    big = []
+    k_ = 0
+    while sum(len(x) for x in big) < (300_000 if tier == "quick" else 900_000):
+        k_ += 1
+        big.append(textgen.ts_head(k_, "iso") + b" big n=%d " % k_ + bytes(rng.choice(b"0123456789abcdefghijklmnopqrstuvwxyzABCDEF") for _ in range(rng.choice([40, 90, 170]))) + b"\n")
+    lay = textgen.Layout(big, [True] * len(big))
+    lay.tslen = textgen.notation_tslen("iso")
+    for cont, enc in (("gz", gen.gz_bytes), ("bz2", gen.bz2_bytes), ("xz", gen.xz_bytes)):
+        for Bx in ([64, 1000, 2048, 2056, 2057, 4096, 65536] if cont == "gz" else [64, 2056, 65536]):
+            name = "big.log." + cont
+            case = Case({name: enc(lay.data)}, ["--color", "never", "--blocksz", str(Bx), name], lay.printed(),
+                        note={"blocksz": Bx, "container": cont, "file": name}, timeout=120)
+            cases.append((case, lay, Bx, cont))
     # files of exactly the sizes at which the reader changes its ways (block-zero analysis asks more of a block of 8096
     # bytes or more; 65536 is the default block size), read at block sizes below, at and above the file size
     for size in ([8095, 8096, 8097, 65536] if tier == "quick" else [4096, 8095, 8096, 8097, 16192, 65535, 65536, 65537]):
